@@ -5,15 +5,17 @@ open Verif.Props.C05B
 #print axioms svg_structure_counterexample
 #print axioms attrs_kept
 #print axioms default_attrs_listed
-#print axioms style_type_counterexample
+#print axioms style_type_default
 #print axioms only_metadata_dropped
 #print axioms removed_subtree
 #print axioms empty_collapse_ok
 #print axioms dimension_value_ok
 #print axioms dimension_written
+#print axioms dimension_text_ok
 #print axioms dimension_text_counterexample
 #print axioms color_attr_ok
 #print axioms attr_value_partial
 #print axioms attr_value_counterexample
 #print axioms text_chars_counterexample
 #print axioms foreign_object_verbatim
+#print axioms pi_verbatim
